@@ -15,6 +15,8 @@ enumerates them - except divmod, whose zero tests on coefficients are forked exh
 from __future__ import annotations
 
 import multiprocessing as mp
+import os
+import sys
 import random
 import time
 import traceback
@@ -483,8 +485,13 @@ def _divmod_instance(p, concrete):
 
 def _job(arg):
     t0 = time.time()
+    trace = os.environ.get("VERIF_TRACE")
+    if trace:
+        print("C16 start %s" % _id(*arg), file=sys.stderr, flush=True)
     try:
         ok, detail = run_instance(arg)
+        if trace:
+            print("C16 done %.1fs %s" % (time.time() - t0, _id(*arg)), file=sys.stderr, flush=True)
         return arg, ok, detail, time.time() - t0, None
     except ZeroDivisionError as e:
         if str(e).startswith("ring:"):
@@ -494,6 +501,39 @@ def _job(arg):
     except Exception:
         # an exception of the real code on a well-formed input is a refutation ("raises")
         return arg, False, dict(raised=traceback.format_exc()[-1200:]), time.time() - t0, "raised"
+
+
+def _run_pool(inst, budget):
+    """All instances through a fork pool.  A whole run takes well under a minute; once (in some fifty runs) a run did not
+    come back within an hour for a reason that did not reproduce (a lost worker or a path exploration that depends on
+    object addresses).  So: a watchdog; instances without a result within the budget are run again in a fresh pool, and
+    only after three attempts reported as undecided (never as a verdict)."""
+    pending = {_id(*a): a for a in inst}
+    results = []
+    ctx = mp.get_context("fork")
+    for attempt in range(3):
+        if not pending:
+            break
+        pool = ctx.Pool(core.NPROC)
+        try:
+            it = pool.imap_unordered(_job, list(pending.values()), chunksize=1)
+            deadline = time.time() + budget
+            while pending:
+                try:
+                    r = it.next(timeout=max(1.0, deadline - time.time()))
+                except mp.TimeoutError:
+                    print("C16: %d instance(s) without a result after %d s (attempt %d): %s" % (len(pending), budget, attempt + 1, sorted(pending)[:4]), file=sys.stderr, flush=True)
+                    break
+                results.append(r)
+                pending.pop(_id(*r[0]), None)
+        finally:
+            pool.terminate()
+            pool.join()
+    for a in pending.values():
+        results.append((a, None, dict(engine_limit="no result within %d s in 3 attempts" % budget), 0.0, None))
+    order = {_id(*a): i for i, a in enumerate(inst)}
+    results.sort(key=lambda r: order[_id(*r[0])])
+    return results
 
 
 # ------------------------------------------------------------------ replay of a refuted instance
@@ -584,9 +624,7 @@ def build(tier, only=None):
         inst = [a for a in inst if only in _id(*a)]
     # big ones first
     inst.sort(key=lambda a: -(a[1].get("N", 0) + 40 * (a[0] == "polynomial.divmod") * (a[1].get("n", 0) + a[1].get("m", 0))))
-    ctx = mp.get_context("fork")
-    with ctx.Pool(core.NPROC) as pool:
-        results = pool.map(_job, inst, chunksize=4)
+    results = _run_pool(inst, 600 if tier == "quick" else 1200)
     for arg, ok, detail, dt, raised in results:
         fn, p = arg
         # divmod beyond degree 6 (thorough tier): attempted, not claimed (the forking engine meets paths it cannot split)
